@@ -606,6 +606,17 @@ Theorem C05_split_writes_explored :
 Proof. exact split_writes. Qed.
 Print Assumptions C05_split_writes_explored.
 
+(* ... in particular with the fuel 4 * threads + 2 that the correspondence gives the
+   explorer: every finished race of the OCI system is in the compared outcome set *)
+Theorem C05_explorer_fuel :
+  forall (H : str -> str -> str) big blobs ts sched st',
+    Forall (fun t => t_pc t = PStart /\ (length (stream (t_evs t)) <= S big)%nat) ts ->
+    crun H (mkC blobs ts) sched = Some st' ->
+    Forall (fun t => exists r, t_pc t = PDone r) (c_thr st') ->
+    In st' (explore H (4 * length ts + 2) big (mkC blobs ts)).
+Proof. exact split_writes_fuel. Qed.
+Print Assumptions C05_explorer_fuel.
+
 (* the behaviour before the repair (NewVerifyReader accepted a negative Size): the
    CopyBuffer path stored the empty blob under a descriptor of size -1 *)
 Theorem C05_push_sound_refuted_negative_size :
